@@ -32,13 +32,14 @@ REFUTED = [
     "C08_text_too_long_old_refuted (pre-repair TextData.values setter accepts more entries than the geometry has; repaired by fixes/C08-text-too-long.patch)",
     "C08_text_bytes_old_refuted (pre-repair TextData.values stores an 'S' array that is not UTF-8 and the entity can no longer be read; repaired by fixes/C08-text-invalid-utf8-bytes.patch)",
     "C08_blob_named_Data_refuted / C08_blob_reserved_names (FilenameData whose file is called 'Data' reads back None, called 'Type' makes the file unloadable: open findings file-named-Data, file-named-Type; consequences of the two-dataset node model)",
+    "C08_meta_refusal_old_refuted (pre-repair: a refused metadata assignment deletes the stored metadata and leaves the refused value in memory; repaired by fixes/C08-metadata-refusal-not-atomic.patch)",
     "C08_meta_full_refuted / C08_meta_unmapped_positions (metadata: a UUID two dictionaries down or in a list comes back as its braced text: open finding metadata-uuid-not-restored); C08_meta_lookalikes (exactly the strings/ints uuid.UUID accepts come back as UUID: open finding metadata-uuid-lookalike)",
 ]
 PARTIAL = [
     "C08_float_roundtrip: the documented exception (a float exactly equal to FLOAT_NDV) is excluded by hypothesis; C08_float_ndv_exception shows what happens to it",
     "C08_meta_roundtrip: side condition meta_ok (identifiers only in the metadata dict or a dict directly below; no uuid look-alike str/int in those slots) - exactly the complement of the two open metadata findings; the JSON text layer (json.dumps / json.loads on None/bool/int/float/str/list/str-keyed dict) is trusted, not modelled",
-    "C08_blob_roundtrip: every file name except 'Data' and 'Type' (open findings)",
-    "uuid.UUID leniency of int(text, 16) (surrounding blanks, sign, 0x prefix, non-ASCII digits) is not in parse_uuid; the generator avoids such strings",
+    "C08_blob_roundtrip: every file name with name_ok (non-empty, no NUL, not '.', no '/') except 'Data' and 'Type' (open findings); names with '/' are HDF5 paths, outside the node model (oracle only; '/x' is the open finding file-named-absolute-path)",
+    "parse_uuid models uuid.UUID(str(v)) including int(text,16)'s leniency on ASCII text (blanks, '+', 0x, underscores); non-ASCII digits/blanks, which CPython also accepts, are not decided by the model: meta_ok excludes non-ASCII strings whose cleaned text has 32 characters and such cases are not compared in Coq (the oracle still checks them)",
 ]
 TRUSTED = [
     "Coq 8.16.1 kernel + vm_compute (correspondence evaluation); no axioms (Print Assumptions: closed)",
@@ -66,9 +67,9 @@ RULE = (
     "boolean maps, followed by 0-4 assignments; blob: byte strings incl. NULs and all 256 values; non-trivial = a no-data "
     "gap, a boundary magnitude (|v| >= 2^31-1 or sentinel neighbour), a non-ASCII string, a refused input, or a map "
     "with an assignment; map cases also store 1-5 referenced values inside and outside the map's keys; json: 1-3 comments (Unicode, "
-    "uuid-shaped text) or a metadata dict nested up to 3 deep with None/bool/ints (32-digit ones)/floats/Unicode strings/near-"
+    "uuid-shaped text) or a session of 1-3 metadata assignments (dicts that merge, None, unencodable or non-dict values), each dict nested up to 3 deep with None/bool/ints (32-digit ones)/floats/Unicode strings/near-"
     "look-alikes/identifiers/empty dict and list; 22% of the metadata cases are spiced with look-alikes, deep identifiers, "
-    "identifiers in lists, bytes; blob names include Data and Type"
+    "identifiers in lists, and the forms int(text,16) tolerates (underscores, blanks, +, 0x, non-ASCII digits); blob names include Data, Type, empty, '.', '..', NUL, 'a/b', '/x'"
 )
 LEVEL_TEXT = (
     "Proved in Coq for all inputs of the model: float arrays without the sentinel read back token-for-token with NaN stored "
@@ -77,7 +78,7 @@ LEVEL_TEXT = (
     "stored as int8 0/1 and anything else is refused; object/str/complex/bool-to-float inputs are refused; text round-trips "
     "under the codec law, which is itself proved for the model's RFC 3629 codec; ReferenceValueMap keeps key 0 = 'Unknown' "
     "over every constructor/__setitem__ sequence and survives the file with all labels.  The five pre-repair defects are "
-    "proved as refutations of the old transcription (tied to the unpatched tree by C08_MODEL_VER=Old) and repaired by fixes/C08-*.patch.  Metadata dictionaries round-trip for all nested values under meta_ok, with the look-alike set stated as an iff and the braced uuid text proved to parse back for every identifier; comments round-trip for all record lists; the FilenameData node is a two-dataset model from which read-back is proved for every name but Data/Type; referenced values outside the map's keys are returned as they are.  Four open findings (file-named-Data, file-named-Type, metadata-uuid-lookalike, metadata-uuid-not-restored).  "
+    "proved as refutations of the old transcription (tied to the unpatched tree by C08_MODEL_VER=Old) and repaired by fixes/C08-*.patch.  Metadata dictionaries round-trip for all nested values under meta_ok, with the look-alike set stated as an iff and the braced uuid text proved to parse back for every identifier; comments round-trip for all record lists; the FilenameData node is a two-dataset model from which read-back is proved for every name but Data/Type; referenced values outside the map's keys are returned as they are.  Metadata sessions (merge by dict.update, None clears, refusals atomic after the repair) are modelled as a state machine.  Five open findings (file-named-Data, file-named-Type, file-named-absolute-path, metadata-uuid-lookalike, metadata-uuid-not-restored).  "
     "Tie: correspondence of model and code on generated arrays of every numeric dtype, strings of all planes, "
     "maps and blobs (API value live, raw dataset, API value after re-open)."
 )
@@ -415,14 +416,22 @@ def gen_blob(rng):
         b = list(range(256))
     else:
         b = [rng.choice([0, 0, 1, 10, 13, 65, 127, 128, 255, rng.below(256)]) for _ in range(rng.range(1, 12))]
-    name = rng.weighted([("f.dat", 55), ("Data", 10), ("Type", 7), ("\u00e9\U0001F600.bin", 14), ("a b.tiff", 14)])
+    name = rng.weighted([("f.dat", 45), ("Data", 9), ("Type", 6), ("\u00e9\U0001F600.bin", 12), ("a b.tiff", 10), ("", 3), (".", 3), ("..", 3), ("a\x00b", 3), ("a/b", 3), ("/x", 3)])
     return {"kind": "blob", "bytes": b, "name": cps(name)}
 
 
 UUID_LOOKALIKES = ["{00000000-0000-0000-0000-000000000005}", "00000000000000000000000000000005", "ABCDEF00-0000-0000-0000-0000000000ff",
-                   "urn:uuid:12345678-1234-5678-1234-567812345678", "{}{}12345678123456781234567812345678", "uuid:{0-0-0-0-0000000000000000000000000000}"]
+                   "urn:uuid:12345678-1234-5678-1234-567812345678", "{}{}12345678123456781234567812345678", "uuid:{0-0-0-0-0000000000000000000000000000}",
+                   # what int(text, 16) tolerates inside uuid.UUID: underscores, blanks, '+', 0x
+                   "1_234567812345678123456781234567", " 0000000000000000000000000000005", "+0000000000000000000000000000005",
+                   "0x000000000000000000000000000005", "0X_00000000000000000000000000005", "0000000000000000000000000000005\n",
+                   "{\t00000000000000000000000000005\x1f}", "0_0_0_0_0_0_0_0_0_0_0_0_0_0_0_05", "+0x00000000000000000000000000a_F",
+                   "\u0660" * 32, "0000000000000000000000000000000\u0665"]
 NEAR_LOOKALIKES = ["{00000000-0000-0000-0000-00000000000}", "0000000000000000000000000000000g", "{00000000-0000-0000-0000-000000000005} ",
-                   "urn:uuid", "{}", "--------------------------------", "0000_0000000000000000000000000005"]
+                   "urn:uuid", "{}", "--------------------------------", "0000__000000000000000000000000005",
+                   "_0000000000000000000000000000005", "0000000000000000000000000000005_", "-0000000000000000000000000000005",
+                   "0o000000000000000000000000000005", "+ 000000000000000000000000000005", "0x_0000000000000000000000000000_",
+                   "0x" + " " * 30, "++000000000000000000000000000005", "00000000 0000000000000000000000005"]
 
 
 def gen_meta_val(rng, depth, strs, spice):
@@ -478,15 +487,38 @@ def gen_json(rng):
                 "comments": [[cps(rng.choice(strs + UUID_LOOKALIKES[:2])), cps(rng.choice(strs[:4] + S_BMP[:2]))] for _ in range(rng.range(1, 3))]}
     # spice: look-alikes where they are mapped, identifiers where they are not, values json refuses (the recorded findings)
     spice = rng.chance(22)
-    d = []
-    for i in range(rng.weighted([(0, 6), (1, 34), (2, 34), (3, 26)])):
-        v = gen_meta_val(rng, 1, strs, spice)
-        if spice and rng.chance(35):
-            v = rng.choice([{"$s": cps(rng.choice(UUID_LOOKALIKES))}, 12345678123456781234567812345678, -(10**31) - 5,
-                            {"$d": [[cps("in"), {"$s": cps(rng.choice(UUID_LOOKALIKES))}]]},
-                            {"$d": [[cps("a"), {"$d": [[cps("b"), {"$u": 77}]]}]]}, [{"$u": 5}], {"$bad": 1}])
-        d.append([cps("k%d" % i) + (cps(rng.choice(S_BMP[:3])) if rng.chance(20) else []), v])
-    return {"kind": "json", "what": "meta", "value": {"$d": d}, "spice": spice}
+
+    def one_dict():
+        d = []
+        for i in range(rng.weighted([(0, 6), (1, 34), (2, 34), (3, 26)])):
+            v = gen_meta_val(rng, 1, strs, spice)
+            if spice and rng.chance(35):
+                v = rng.choice([{"$s": cps(rng.choice(UUID_LOOKALIKES))}, 12345678123456781234567812345678, -(10**31) - 5,
+                                {"$d": [[cps("in"), {"$s": cps(rng.choice(UUID_LOOKALIKES))}]]},
+                                {"$d": [[cps("a"), {"$d": [[cps("b"), {"$u": 77}]]}]]}, [{"$u": 5}]])
+            d.append([cps("k%d" % rng.below(4)) + (cps(rng.choice(S_BMP[:3])) if rng.chance(20) else []), v])
+        seen, out = set(), []
+        for k, v in d:  # a Python dict literal: the last value of a repeated key wins, at the first position
+            if tuple(k) in seen:
+                out = [[kk, v if kk == k else vv] for kk, vv in out]
+            else:
+                seen.add(tuple(k))
+                out.append([k, v])
+        return {"$d": out}
+
+    # one session: 1-3 assignments (the setter merges dicts, None clears, an unencodable or non-dict value is refused)
+    ops = []
+    for _ in range(rng.weighted([(1, 55), (2, 30), (3, 15)])):
+        r = rng.below(100)
+        if r < 78:
+            ops.append(one_dict())
+        elif r < 86:
+            ops.append(None)
+        elif r < 94:
+            ops.append({"$d": [[cps("bad"), rng.choice([{"$bad": 1}, [[{"$u": 3}]], {"$d": [[cps("x"), [{"$bad": 1}]]]}])]]})
+        else:
+            ops.append(rng.choice([5, {"$s": cps("text")}, [1, 2]]))
+    return {"kind": "json", "what": "meta", "ops": ops, "spice": spice}
 
 
 FIXED = [
@@ -502,6 +534,10 @@ FIXED = [
     {"kind": "text", "form": "arrU", "assoc": "VERTEX", "n": 2, "val": [cps("a"), cps("b"), cps("c")]},
     {"kind": "blob", "bytes": [120], "name": cps("Data")},
     {"kind": "blob", "bytes": [120, 0], "name": cps("Type")},
+    {"kind": "blob", "bytes": [120], "name": cps("/x")},
+    {"kind": "json", "what": "meta", "spice": True, "ops": [{"$d": [[cps("a"), 1]]}, {"$d": [[cps("b"), 2]]}, {"$d": [[cps("c"), {"$bad": 1}]]}]},
+    {"kind": "json", "what": "meta", "spice": True, "ops": [{"$d": [[cps("a"), {"$s": cps("1_234567812345678123456781234567")}]]}]},
+    {"kind": "json", "what": "meta", "spice": False, "ops": [{"$d": [[cps("a"), 1], [cps("b"), 2]]}, {"$d": [[cps("b"), {"$u": 9}], [cps("c"), None]]}, None, {"$d": [[cps("z"), []]]}]},
     {"kind": "json", "what": "meta", "spice": True, "value": {"$d": [[cps("a"), {"$d": [[cps("b"), {"$d": [[cps("c"), {"$u": 5}]]}]]}]]}},
     {"kind": "json", "what": "meta", "spice": True, "value": {"$d": [[cps("a"), {"$s": cps("00000000000000000000000000000005")}]]}},
     {"kind": "json", "what": "meta", "spice": False, "value": {"$d": [[cps("a"), {"$u": 5}], [cps("b"), {"$d": [[cps("c"), {"$u": 2**128 - 1}], [cps("d"), []], [cps("e"), {"$d": []}]]}], [cps("f"), None]]}},
@@ -820,6 +856,40 @@ def _canon_json(v):
     return {"$other": type(v).__name__}
 
 
+def _meta_ops(case):
+    return case["ops"] if "ops" in case else [case["value"]]
+
+
+def _drive_meta(case, path, ws, pts):
+    import h5py
+    from geoh5py import Workspace
+
+    errs = []
+    for v in _meta_ops(case):
+        try:
+            pts.metadata = _py_json(v)
+            errs.append(None)
+        except Exception as e:  # noqa: BLE001
+            errs.append(_err(e))
+    uid = pts.uid
+    out = {"errs": errs, "live": _canon_json(pts.metadata)}
+    ws.close()
+    with h5py.File(path, "r") as h:
+        g = h["GEOSCIENCE"]["Objects"]["{%s}" % uid]
+        if "Metadata" in g:
+            text = g["Metadata"][()][0]
+            text = text.decode("utf-8") if isinstance(text, bytes) else str(text)
+            out["raw"] = {"ascii": all(ord(c) < 128 for c in text), "value": _canon_json(json.loads(text))}
+        else:
+            out["raw"] = None
+    try:
+        with Workspace(path, mode="r") as ws2:
+            out["re"] = _canon_json(ws2.get_entity(uid)[0].metadata)
+    except Exception as e:  # noqa: BLE001
+        out["read_err"] = _err(e)
+    return out
+
+
 def _drive_json(case, path):
     import numpy as np
     from geoh5py import Workspace
@@ -834,9 +904,7 @@ def _drive_json(case, path):
                 uid = pts.comments.uid
                 live = _canon_json(pts.comments.values)
             else:
-                pts.metadata = _py_json(case["value"])
-                uid = pts.uid
-                live = _canon_json(pts.metadata)
+                return _drive_meta(case, path, ws, pts)
         except Exception as e:  # noqa: BLE001
             return {"store_err": _err(e), "msg": str(e)[:160]}
     import h5py
@@ -1035,12 +1103,22 @@ def _map_term(case, obs):
     return t
 
 
+def c08_name_refused(name):
+    return name == [] or 0 in name or name == [46]
+
+
 def _blob_term(case, obs):
     is_data = _s(case["name"]) == "Data"
     x = "FNotBytes" if case["bytes"] is None else "(FBytes %s)" % cbytes(case["bytes"])
+    if 47 in case["name"]:
+        return None  # an HDF5 path, outside the node model (oracle only)
     if "store_err" in obs:
         e = cerr(obs["store_err"])
-        return "false" if e is None else "agree_blob %s %s (Err %s)" % (cbool(is_data), x, e)
+        if e is None:
+            return "false"
+        if case["bytes"] and c08_name_refused(case["name"]):
+            return "agree_name_refused %s %s" % (cbytes(case["name"]), e)
+        return "agree_blob %s %s (Err %s)" % (cbool(is_data), x, e)
     if case["bytes"] is None or obs["live"] != case["bytes"]:
         return "false"
     ms = []
@@ -1097,22 +1175,45 @@ def _cjv(v):
     return None
 
 
+def copt_term(t):
+    return None if t is None else "(Some %s)" % t
+
+
+def _has_unicode_digit_or_space(v):
+    if isinstance(v, dict):
+        if "$s" in v:
+            return any(c > 127 and (chr(c).isdecimal() or chr(c).isspace()) for c in v["$s"])
+        if "$d" in v:
+            return any(_has_unicode_digit_or_space(x) for _, x in v["$d"])
+        return False
+    if isinstance(v, list):
+        return any(_has_unicode_digit_or_space(x) for x in v)
+    return False
+
+
 def _json_term(case, obs):
     if case["what"] == "meta":
-        m = _cjv(case["value"])
-        if m is None:
-            return None
-        if "store_err" in obs:
-            e = cerr(obs["store_err"])
-            return "false" if e is None else "agree_meta %s None (Err %s)" % (m, e)
-        if obs["live"] != case["value"] or not obs["raw"]["ascii"]:
+        ops = [_cjv(v) for v in _meta_ops(case)]
+        if any(o is None for o in ops) or _has_unicode_digit_or_space(_meta_ops(case)):
+            return None  # non-ASCII digits / blanks: what int() makes of them is not modelled
+        if "store_err" in obs or (obs["raw"] is not None and not obs["raw"]["ascii"]):
             return "false"
-        w = _cjv(obs["raw"]["value"])
+        if any(e is not None and cerr(e) is None for e in obs["errs"]):
+            return "false"
+        es = clist("None" if e is None else "(Some %s)" % cerr(e) for e in obs["errs"])
+        live = "None" if obs["live"] is None else copt_term(_cjv(obs["live"]))
+        w = "None" if obs["raw"] is None else copt_term(_cjv(obs["raw"]["value"]))
+        if live is None or w is None:
+            return "false"
         if "read_err" in obs:
             e = cerr(obs["read_err"])
-            return "false" if e is None or w is None else "agree_meta %s (Some %s) (Err %s)" % (m, w, e)
-        r = _cjv(obs["re"])
-        return "false" if r is None or w is None else "agree_meta %s (Some %s) (Ok %s)" % (m, w, r)
+            o = None if e is None else "(Err %s)" % e
+        else:
+            r = "JNull" if obs["re"] is None else _cjv(obs["re"])
+            o = None if r is None else "(Ok %s)" % r
+        if o is None:
+            return "false"
+        return "agree_meta_run %s %s %s %s %s %s" % (MODEL_VER, clist(ops), es, live, w, o)
     # comments: the records the API built (author, date, text) are the model's input
     if "store_err" in obs:
         return "false"
@@ -1150,8 +1251,8 @@ def model_term(case):
                                                  _arr_term(case))
     if k == "map":
         return "run_map utf8_enc utf8_dec %s %s %s" % (MODEL_VER, _cdict(case["d"]), _cdict(case["ops"]))
-    if k == "json" and case["what"] == "meta" and _cjv(case["value"]) is not None:
-        return "(meta_written %s, meta_trip %s)" % (_cjv(case["value"]), _cjv(case["value"]))
+    if k == "json" and case["what"] == "meta" and all(_cjv(v) is not None for v in _meta_ops(case)):
+        return "(let (st, es) := meta_run %s mfresh %s in (es, mem st, file st, meta_reopen st))" % (MODEL_VER, clist(_cjv(v) for v in _meta_ops(case)))
     if k == "blob" and case["bytes"]:
         return "(node_write node0 %s %s, node_read (node_write node0 %s %s))" % ((cbytes(case["name"]), cbytes(case["bytes"])) * 2)
     return None
@@ -1358,8 +1459,11 @@ def _oracle_blob(case, obs):
         fails.append({"key": "live-value-differs", "what": "blob right after the write differs"})
     kinds = {_s(k): (kind, v) for k, kind, v in obs["members"]}
     if "read_err" in obs:
-        key = "file-named-Type" if name == "Type" and kinds.get("Type", ("", None))[0] == "blob" else "unreadable-after-write"
+        key = "file-named-Type" if name == "Type" and kinds.get("Type", ("", None))[0] == "blob" else \
+            "file-named-absolute-path" if name.startswith("/") and obs["read_err"] == "FileNotFoundError" else "unreadable-after-write"
         return fails + [{"key": key, "what": f"file {name!r}: re-open raised {obs['read_err']}; node members {sorted(kinds)}"}]
+    if "/" in name and obs["re"] == case["bytes"] and obs["re_name"] == case["name"]:
+        return fails  # stored as an HDF5 path and read back exactly
     if obs["re"] != case["bytes"] or obs["re_name"] != case["name"]:
         key = "file-named-Data" if name == "Data" and obs["re"] is None and sorted(kinds) == ["Data", "Type"] and kinds["Data"][0] == "blob" \
             else "reopened-blob-differs"
@@ -1441,20 +1545,68 @@ def _oracle_json(case, obs):
         if obs["live"] != obs["re"]:
             return [{"key": "comment-differs", "what": "comments after re-open differ from the live ones (date?)"}]
         return []
-    exp = case["value"]
+    # one session: dict assignments merge (top level), None clears, anything json cannot carry (and any non-dict) must be
+    # refused and must then change nothing
+    def encodable(v):
+        if isinstance(v, dict):
+            if "$bad" in v or "$other" in v:
+                return False
+            if "$d" in v:
+                return all(encodable(x) for _, x in v["$d"])
+            return True
+        if isinstance(v, list):  # dict_mapper maps identifiers one level into a list only
+            return all(encodable(x) and not (isinstance(x, list) and _has_uuid(x)) and not (isinstance(x, dict) and "$d" in x and _has_uuid(x)) for x in v)
+        return True
+
+    exp = None
     fails = []
+    seen_ops = []
+    for v, e in zip(_meta_ops(case), obs["errs"]):
+        seen_ops.append(v)
+        if v is None:
+            if e is not None:
+                fails.append({"key": "metadata-none-refused", "what": f"None raised {e}"})
+            exp = None
+        elif isinstance(v, dict) and "$d" in v and encodable(v):
+            if e is not None:
+                # after a refusal that was not atomic the entity holds the refused value and every later assignment fails too
+                after_refusal = any(x is not None for x in obs["errs"][:len(seen_ops) - 1])
+                fails.append({"key": "metadata-refusal-not-atomic" if after_refusal else "metadata-valid-refused",
+                              "what": f"{json.dumps(v)[:200]} raised {e}"})
+            else:
+                cur = {tuple(k): x for k, x in (exp["$d"] if exp else [])}
+                for k, x in v["$d"]:
+                    cur[tuple(k)] = x
+                exp = {"$d": [[list(k), x] for k, x in cur.items()]}
+        elif e is None:
+            fails.append({"key": "unsupported-type-accepted", "what": f"metadata {json.dumps(v)[:200]} accepted"})
+            return fails
     if obs["live"] != exp:
-        fails.append({"key": "live-value-differs", "what": f"metadata {obs['live']} expected {exp}"})
+        refused = any(e is not None for e in obs["errs"])
+        fails.append({"key": "metadata-refusal-not-atomic" if refused else "live-value-differs",
+                      "what": f"entity.metadata {json.dumps(obs['live'])[:300]} expected {json.dumps(exp)[:300]} (errors {obs['errs']})"})
     if "re" not in obs:
         return fails + [{"key": "unreadable-after-write", "what": f"re-open raised {obs.get('read_err')}"}]
     if obs["re"] != exp:
-        pred, used = _predict_meta(exp)
-        if obs["re"] == pred and used:
+        pred, used = _predict_meta(exp) if exp else (None, set())
+        if exp and obs["re"] == pred and used:
             for k in sorted(used):
                 fails.append({"key": k, "what": f"metadata after re-open {json.dumps(obs['re'])[:300]} written {json.dumps(exp)[:300]}"})
+        elif any(e is not None for e in obs["errs"]):
+            if not any(f["key"] == "metadata-refusal-not-atomic" for f in fails):
+                fails.append({"key": "metadata-refusal-not-atomic",
+                              "what": f"after a refused assignment the stored metadata are {json.dumps(obs['re'])[:300]}, expected {json.dumps(exp)[:300]}"})
         else:
-            fails.append({"key": "reopened-metadata-differs", "what": f"metadata after re-open {obs['re']} expected {exp}"})
+            fails.append({"key": "reopened-metadata-differs", "what": f"metadata after re-open {json.dumps(obs['re'])[:300]} expected {json.dumps(exp)[:300]}"})
     return fails
+
+
+def _has_uuid(v):
+    if isinstance(v, dict):
+        return "$u" in v or ("$d" in v and any(_has_uuid(x) for _, x in v["$d"]))
+    if isinstance(v, list):
+        return any(_has_uuid(x) for x in v)
+    return False
 
 
 def oracle(case, obs):
@@ -1493,7 +1645,7 @@ def nontrivial(case, obs):
     if k == "blob":
         return 0 in (case["bytes"] or []) or _s(case["name"]) != "f.dat"
     if case["what"] == "meta":
-        return len(json.dumps(case["value"])) > 40
+        return len(json.dumps(_meta_ops(case))) > 40
     return any(any(c > 127 for c in t) for t, _ in case["comments"])
 
 
